@@ -396,7 +396,14 @@ def run(ctx):
             out = []
             for v in walk(body):
                 if v.get('kind') == 'VarDecl' and v.get('name') == 'row_padding_bytes' and kids(v):
-                    out.append((v, nf(kids(v)[-1], lambda t: 'W' if t == wname else None)))
+                    txt = nf(kids(v)[-1], lambda t: 'W' if t == wname else None)
+                    # a hoisted `row_bytes = width * pixel_bytes` is the same formula
+                    for v2 in walk(body):
+                        if v2.get('kind') == 'VarDecl' and v2.get('name') and kids(v2) and v2 is not v and re.search(r'\b%s\b' % re.escape(v2['name']), txt) and v2['name'] not in ('pixel_bytes',):
+                            d2 = nf(kids(v2)[-1], lambda t: 'W' if t == wname else None)
+                            if d2 in ('(W * pixel_bytes)', '(pixel_bytes * W)'):
+                                txt = re.sub(r'\b%s\b' % re.escape(v2['name']), '(W * pixel_bytes)', txt)
+                    out.append((v, txt))
             return out
         lp_ = padding_defs(lbody, 'w')
         sp_ = padding_defs(svb, 'this.width')
@@ -450,6 +457,24 @@ def run(ctx):
         n_reads = 0
         ROW = lambda k_: p_mul(p_mul(p_atom('this.width'), p_atom('y')), p_const(k_))
         in_png = lambda x_: any(a is case_png for a in ancestors(x_))
+        def alpha_subst(poly_, site):
+            """the polynomial with `this.has_alpha` replaced by the value the path to site fixes it to"""
+            val = None
+            for n_, pol_ in atoms(path_facts(site)):
+                if nf(n_) == 'this.has_alpha':
+                    val = 1 if pol_ else 0
+            if val is None:
+                return poly_
+            out_ = {}
+            for m_, c_ in poly_.items():
+                k_ = m_.count('this.has_alpha')
+                if k_ and val == 0:
+                    continue
+                m2 = tuple(a_ for a_ in m_ if a_ != 'this.has_alpha')
+                out_[m2] = out_.get(m2, 0) + c_
+                if out_[m2] == 0:
+                    del out_[m2]
+            return out_
         # (1) byte-wise copies  dst[D] = pixels[S]
         for x in walk(case_bmp):
             if in_png(x) or x.get('kind') != 'BinaryOperator' or x.get('opcode') != '=':
@@ -459,7 +484,7 @@ def run(ctx):
             if not src or not dst or not src[0].startswith('this.data.'):
                 continue
             n_reads += 1
-            S, D = src[1], dst[1]
+            S, D = alpha_subst(src[1], x), alpha_subst(dst[1], x)
             # the column variable: the atom other than y / width the destination offset depends on
             cols = sorted({a for m in D for a in m} - {'y', 'this.width'})
             kd = D.get((), 0)
@@ -485,7 +510,8 @@ def run(ctx):
             if not pt or not pt[0].startswith('this.data.'):
                 continue
             n_reads += 1
-            ln = PL.poly(a_[1])
+            ln = alpha_subst(PL.poly(a_[1]), c)
+            pt = (pt[0], alpha_subst(pt[1], c))
             ok = pt[1] == ROW(4) and ln == p_mul(p_atom('this.width'), p_const(4))
             ctx.check(ok, R, 'saver|row-stride|alpha-row', c, 'row y is the width*4 bytes at y*width*4',
                       'the saver writes %s bytes from pixels[%s] as row y; a 32-bit row is the width*4 bytes at y*width*4' % (p_str(ln), p_str(pt[1])))
@@ -511,22 +537,36 @@ def run(ctx):
         ctx.check(chan == {0: 2, 1: 1, 2: 0}, R, 'bi_rgb|saver-order', case_bmp, 'file bytes (0,1,2) <- memory bytes (2,1,0)', 'saver channel map is %s' % chan)
         lmap = {}
         bmask = {}
+        # stores into the new pixel buffer from a row buffer, as (base, offset polynomial) pairs: named row
+        # / pixel pointers and hoisted offsets are seen through (E-POLY)
+        from poly import Poly as _Poly
+        PLL = _Poly(L, u)
+        groups = {}
         for x in walk(lbody):
-            if x.get('kind') == 'BinaryOperator' and x.get('opcode') == '=' and strip(x['inner'][0]).get('kind') == 'ArraySubscriptExpr' and canon(strip(x['inner'][0])['inner'][0]) == 'new_data':
-                from guard import split_const
-                db, dk = split_const(canon(strip(x['inner'][0])['inner'][1]))
-                src = strip(x['inner'][1])
-                if src.get('kind') == 'ArraySubscriptExpr' and canon(src['inner'][0]) == 'row_data':
-                    sb, sk = split_const(canon(src['inner'][1]))
-                    if 'src_x_offset' in sb:
-                        lmap[sk] = dk
-                    else:
-                        bmask[dk] = canon(src['inner'][1])
+            if x.get('kind') == 'BinaryOperator' and x.get('opcode') == '=':
+                dst_ = PLL.lvalue(x['inner'][0])
+                src_ = PLL.lvalue(x['inner'][1])
+                if not dst_ or not src_ or not dst_[0].startswith('new_data') or src_[0].startswith(('new_data', 'this.data')):
+                    continue
+                lp_ = enclosing(x, LOOPS)
+                groups.setdefault(id(lp_), []).append((dst_[1], src_[1]))
+        for g_ in groups.values():
+            if len(g_) == 3:        # 24-bit BI_RGB: three byte copies per pixel
+                for d_, s_ in g_:
+                    lmap[s_.get((), 0)] = d_.get((), 0)
+            elif len(g_) == 4:      # 32-bit BI_BITFIELDS: four byte copies, sources at the mask offsets
+                for d_, s_ in g_:
+                    offs = sorted({a_ for m_ in s_ for a_ in m_ if a_.endswith('_offset') and a_ != 'src_x_offset'})
+                    if offs:
+                        bmask[d_.get((), 0)] = '(%s)' % ' + '.join(offs)
         ctx.check(lmap == {0: 2, 1: 1, 2: 0}, R, 'bi_rgb|loader-order', L, 'memory bytes (2,1,0) <- file bytes (0,1,2)', 'loader channel map (file->memory) is %s' % lmap)
         ctx.check(all(lmap.get(i) == chan.get(i) for i in range(3)), R, 'bi_rgb|inverse', L, 'loader and saver are mutually inverse', 'loader map %s and saver map %s are not inverse' % (lmap, chan))
         okb = bmask.get(0, '').endswith('r_offset)') and bmask.get(1, '').endswith('g_offset)') and bmask.get(2, '').endswith('b_offset)') and bmask.get(3, '').endswith('a_offset)')
         okb = okb or (set(bmask) == {0, 1, 2, 3} and all(('%s_offset' % c_) in bmask[i] for i, c_ in enumerate('rgba')))
-        ctx.check(okb, R, 'bitfields|channel-sources', L, 'memory r,g,b,a <- file byte at the mask\'s offset', 'BITFIELDS loader channel sources are %s' % bmask)
+        if not bmask:
+            ctx.undecided(R, 'bitfields|channel-sources', L, 'the BITFIELDS branch does not read the file byte of each channel at a `<channel>_offset` the rule can see')
+        else:
+            ctx.check(okb, R, 'bitfields|channel-sources', L, 'memory r,g,b,a <- file byte at the mask\'s offset', 'BITFIELDS loader channel sources are %s' % bmask)
         tbl = None
         for x in walk(lbody):
             if x.get('kind') == 'VarDecl' and x.get('name') == 'offset_for_bitmask':
